@@ -9,48 +9,48 @@ the bound of each `while` loop.  `props` = the properties whose checks own the e
 (`lean/FinamModel/Props/Tr<group>.lean`).
 """
 
-ENTRY = "Tuple[Int,Val]"
+ENTRY = "Tuple[Time,Val]"
 DATA = f"List[{ENTRY}]"
-RENTRY = "Tuple[Int,Rat]"
+RENTRY = "Tuple[Time,Rat]"
 RDATA = f"List[{RENTRY}]"
 
 SPECS = [
     # ---- adapters/time.py : delay adapters (C13, also C01/C02/C04 through `with_delay`) ------------------------
     dict(lean="DelayFixed_with_delay", path="adapters/time.py", qual="DelayFixed.with_delay", group="Delay",
-         fields={"delay": "Int", "initial_time": "Int"}, params={"time": "Int"}, ret="Int", props=["C13", "C02"]),
+         fields={"delay": "Dur", "initial_time": "Time"}, params={"time": "Time"}, ret="Time", props=["C13", "C02"]),
     dict(lean="DelayToPush_with_delay", path="adapters/time.py", qual="DelayToPush.with_delay", group="Delay",
-         fields={"push_time": "Opt[Int]", "initial_time": "Int"}, params={"time": "Int"}, ret="Int", props=["C13"]),
+         fields={"push_time": "Opt[Time]", "initial_time": "Time"}, params={"time": "Time"}, ret="Time", props=["C13"]),
     dict(lean="DelayToPull_with_delay", path="adapters/time.py", qual="DelayToPull.with_delay", group="Delay",
-         fields={"_pulls": "List[Int]", "initial_time": "Int", "additional_delay": "Int"}, params={"time": "Int"},
-         ret="Int", props=["C13", "C02"]),
+         fields={"_pulls": "List[Time]", "initial_time": "Time", "additional_delay": "Dur"}, params={"time": "Time"},
+         ret="Time", props=["C13", "C02"]),
     dict(lean="DelayToPull__pulled", path="adapters/time.py", qual="DelayToPull._pulled", group="Delay",
-         fields={"_pulls": "List[Int]", "steps": "Int"}, params={"time": "Int"}, ret="Unit",
+         fields={"_pulls": "List[Time]", "steps": "Int"}, params={"time": "Time"}, ret="Unit",
          fuel={"len(self._pulls) > self.steps": "len(self._pulls)"}, props=["C13"]),
     # ---- adapters/time.py : caching adapters (C11) -------------------------------------------------------------
     dict(lean="NextTime__interpolate", path="adapters/time.py", qual="NextTime._interpolate", group="Time",
-         fields={"data": DATA}, params={"time": "Int"}, ret="Val", calls={"self._unpack": "id"}, props=["C11"]),
+         fields={"data": DATA}, params={"time": "Time"}, ret="Val", calls={"self._unpack": "id"}, props=["C11"]),
     dict(lean="PreviousTime__interpolate", path="adapters/time.py", qual="PreviousTime._interpolate", group="Time",
-         fields={"data": DATA}, params={"time": "Int"}, ret="Val", calls={"self._unpack": "id"}, props=["C11"]),
+         fields={"data": DATA}, params={"time": "Time"}, ret="Val", calls={"self._unpack": "id"}, props=["C11"]),
     dict(lean="interpolate", path="adapters/time.py", qual="interpolate", group="TimeBase",
          params={"old_value": "Rat", "new_value": "Rat", "dt": "Rat"}, ret="Rat", props=["C11", "C12"]),
     dict(lean="interpolate_step", path="adapters/time.py", qual="interpolate_step", group="TimeBase",
          params={"old_value": "Val", "new_value": "Val", "dt": "Rat", "step": "Rat"}, ret="Val", props=["C11"]),
     dict(lean="LinearTime__interpolate", path="adapters/time.py", qual="LinearTime._interpolate", group="Time",
-         fields={"data": RDATA}, params={"time": "Int"}, ret="Rat",
+         fields={"data": RDATA}, params={"time": "Time"}, ret="Rat",
          calls={"self._unpack": "id",
                 "interpolate": {"lean": "interpolate", "args": [0, 1, 2], "ret": "Rat"}}, props=["C11"]),
     dict(lean="StepTime__interpolate", path="adapters/time.py", qual="StepTime._interpolate", group="Time",
-         fields={"data": DATA, "step": "Rat"}, params={"time": "Int"}, ret="Val",
+         fields={"data": DATA, "step": "Rat"}, params={"time": "Time"}, ret="Val",
          calls={"self._unpack": "id",
                 "interpolate_step": {"lean": "interpolate_step", "args": [0, 1, 2, 3], "ret": "Val"}}, props=["C11"]),
     dict(lean="TimeCachingAdapter__clear_cached_data", path="adapters/time.py",
          qual="TimeCachingAdapter._clear_cached_data", group="TimeBase",
-         fields={"data": DATA}, params={"time": "Int"}, ret="Unit",
+         fields={"data": DATA}, params={"time": "Time"}, ret="Unit",
          assume_false=["isinstance(d[1], str)"], ignore_fields=["_total_mem"], locals={"d": ENTRY},
          fuel={"len(self.data) > 1 and self.data[1][0] <= time": "len(self.data)"}, props=["C11", "C12"]),
     # ---- sdk/output.py (C08, C09) ------------------------------------------------------------------------------
     dict(lean="Output__interpolate", path="sdk/output.py", qual="Output._interpolate", group="Output",
-         fields={"data": DATA}, params={"time": "Int"}, ret="Val", calls={"self._unpack": "id"}, props=["C08", "C09"]),
+         fields={"data": DATA}, params={"time": "Time"}, ret="Val", calls={"self._unpack": "id"}, props=["C08", "C09"]),
 ]
 
 SCHED_COMMON = dict(
@@ -117,22 +117,22 @@ INTEG_COMMON = dict(
 SPECS += [
     # ---- adapters/time_integration.py (C12) ---------------------------------------------------------------------
     dict(lean="AvgOverTime__interpolate", qual="AvgOverTime._interpolate",
-         fields={"data": RDATA, "_prev_time": "Int", "_step": "Opt[Rat]"}, params={"time": "Int"}, **INTEG_COMMON),
+         fields={"data": RDATA, "_prev_time": "Time", "_step": "Opt[Rat]"}, params={"time": "Time"}, **INTEG_COMMON),
     dict(lean="SumOverTime__interpolate", qual="SumOverTime._interpolate",
-         fields={"data": RDATA, "_prev_time": "Int", "_step": "Opt[Rat]", "_per_time": "Bool", "_initial_interval": "Int"},
-         params={"time": "Int"}, **INTEG_COMMON),
+         fields={"data": RDATA, "_prev_time": "Time", "_step": "Opt[Rat]", "_per_time": "Bool", "_initial_interval": "Dur"},
+         params={"time": "Time"}, **INTEG_COMMON),
 ]
 
 SPECS += [
     # ---- sdk/output.py : eviction (C09) ---------------------------------------------------------------------------
     dict(lean="Output__clear_data", path="sdk/output.py", qual="Output._clear_data", group="Output",
-         fields={"data": DATA, "_connected_inputs": "Dict[Obj,Opt[Int]]"}, params={"time": "Int", "target": "Obj"},
+         fields={"data": DATA, "_connected_inputs": "Dict[Obj,Opt[Time]]"}, params={"time": "Time", "target": "Obj"},
          ret="Unit", assume_false=["isinstance(d[1], str)"], ignore_fields=["_total_mem"], locals={"d": ENTRY},
          fuel={"len(self.data) > 1 and self.data[1][0] <= t_min": "len(self.data)"}, props=["C09"]),
 ]
 
-RANGE = "Tuple[Opt[Int],Opt[Int]]"
-CHECK_TIME_CALL = {"lean": "check_time", "args": [1, 2], "argtypes": ["Int", RANGE], "stmt": True}
+RANGE = "Tuple[Opt[Time],Opt[Time]]"
+CHECK_TIME_CALL = {"lean": "check_time", "args": [1, 2], "argtypes": ["Time", RANGE], "stmt": True}
 
 
 def _get_data_variant(kind, interp, data, val, extra_fields=None, extra_args=None):
@@ -140,7 +140,7 @@ def _get_data_variant(kind, interp, data, val, extra_fields=None, extra_args=Non
     f.update(extra_fields or {})
     return dict(
         lean=f"TimeCachingAdapter__get_data_{kind}", path="adapters/time.py", qual="TimeCachingAdapter._get_data",
-        group="Time", fields=f, params={"time": "Int"}, ignore_params=["_target"], ret=val,
+        group="Time", fields=f, params={"time": "Time"}, ignore_params=["_target"], ret=val,
         calls={"check_time": CHECK_TIME_CALL,
                "self._interpolate": {"lean": interp, "args": ["self.data"] + (extra_args or []) + [0], "ret": val},
                "self._clear_cached_data": {"lean": "TimeCachingAdapter__clear_cached_data", "args": ["self.data", 0],
@@ -151,7 +151,7 @@ def _get_data_variant(kind, interp, data, val, extra_fields=None, extra_args=Non
 SPECS += [
     # ---- adapters/time.py : check_time and the whole `_get_data` of the four interpolation adapters (C11) ---------
     dict(lean="check_time", path="adapters/time.py", qual="check_time", group="TimeBase",
-         params={"time": "Int", "time_range": RANGE}, ignore_params=["logger"], ret="Unit",
+         params={"time": "Time", "time_range": RANGE}, ignore_params=["logger"], ret="Unit",
          assume_false=["not isinstance(time, datetime)"], props=["C11", "C12"]),
     _get_data_variant("next", "NextTime__interpolate", DATA, "Val"),
     _get_data_variant("prev", "PreviousTime__interpolate", DATA, "Val"),
@@ -161,11 +161,11 @@ SPECS += [
 
 
 def _integ_get_data(kind, interp, fields, args):
-    f = {"data": RDATA, "_prev_time": "Int"}
+    f = {"data": RDATA, "_prev_time": "Time"}
     f.update(fields)
     return dict(
         lean=f"TimeIntegrationAdapter__get_data_{kind}", path="adapters/time_integration.py",
-        qual="TimeIntegrationAdapter._get_data", group="Integ", fields=f, params={"time": "Int"},
+        qual="TimeIntegrationAdapter._get_data", group="Integ", fields=f, params={"time": "Time"},
         ignore_params=["_target"], ret="Rat",
         calls={"check_time": CHECK_TIME_CALL,
                "self._interpolate": {"lean": interp, "args": ["self.data", "self._prev_time"] + args + [0], "ret": "Rat"},
@@ -179,16 +179,16 @@ SPECS += [
     #      request, `_prev_time` advanced afterwards) (C12) ---------------------------------------------------------
     _integ_get_data("avg", "AvgOverTime__interpolate", {"_step": "Opt[Rat]"}, ["self._step"]),
     _integ_get_data("sum", "SumOverTime__interpolate",
-                    {"_step": "Opt[Rat]", "_per_time": "Bool", "_initial_interval": "Int"},
+                    {"_step": "Opt[Rat]", "_per_time": "Bool", "_initial_interval": "Dur"},
                     ["self._step", "self._per_time", "self._initial_interval"]),
 ]
 
 SPECS += [
     # ---- sdk/output.py : the whole `Output.get_data` (C08 C09 C20) ------------------------------------------------
     dict(lean="Output_get_data", path="sdk/output.py", qual="Output.get_data", group="Output",
-         fields={"_output_info": "Opt[Unit]", "_out_infos_exchanged": "Int", "_connected_inputs": "Dict[Obj,Opt[Int]]",
+         fields={"_output_info": "Opt[Unit]", "_out_infos_exchanged": "Int", "_connected_inputs": "Dict[Obj,Opt[Time]]",
                  "data": DATA, "is_static": "Bool"},
-         params={"time": "Int", "target": "Obj"}, ret="Val", drop_calls=["_check_time"],
+         params={"time": "Time", "target": "Obj"}, ret="Val", drop_calls=["_check_time"],
          calls={"self._unpack": "id",
                 "self._interpolate": {"lean": "Output__interpolate", "args": ["self.data", 0], "ret": "Val"},
                 "self._clear_data": {"lean": "Output__clear_data", "args": ["self.data", "self._connected_inputs", 0, 1],
@@ -212,7 +212,7 @@ SPECS += [
 SPECS += [
     # ---- sdk/input.py : Input.pull_data, static inputs fetch once (C20) -------------------------------------------
     dict(lean="Input_pull_data", path="sdk/input.py", qual="Input.pull_data", group="Static",
-         fields={"is_static": "Bool", "_cached_data": "Opt[Val]"}, params={"time": "Int"}, ignore_params=["target"],
+         fields={"is_static": "Bool", "_cached_data": "Opt[Val]"}, params={"time": "Time"}, ignore_params=["target"],
          extra_params={"src_data": "Val"}, ret="Val",
          consts={"self._source.get_data(time, target or self)": ("src_data", "Val")},
          calls={"self._convert_and_check": "id"}, locals={"data": "Val"},
